@@ -165,10 +165,27 @@ def strat_fields(draw):
         "ibeam": draw(st.integers(0, 1000)), "nbeams": draw(st.integers(0, 1000)),
         "dm": draw(st.one_of(st.just(0.0), st.floats(0, 5000, allow_nan=False))),
         "az": draw(st.floats(0, 360, allow_nan=False, exclude_max=True)), "za": draw(st.floats(0, 90, allow_nan=False)),
+        "angle_unit": draw(st.sampled_from(["deg", "deg", "rad", "hourangle", "arcmin"])),
         "nifs": draw(st.sampled_from([1, 1, 2, 4])),
         "rawdatafile": draw(st.sampled_from(["", "raw.dat", "a/b/c.raw"])),
         "signed": draw(st.booleans()),
     }
+
+
+def _angle(deg, unit):
+    """The same angle held in another unit (an Angle is a quantity: its unit is representation, not value); also the
+    sky position below may be given in another frame/unit by the caller."""
+    import astropy.units as u
+    from astropy.coordinates import Angle
+
+    a = Angle(deg * u.deg)
+    if unit == "rad":
+        return Angle(a.to(u.rad))
+    if unit == "hourangle":
+        return Angle(a.to(u.hourangle))
+    if unit == "arcmin":
+        return Angle(a.to(u.arcmin))
+    return a
 
 
 def check_fields(case, ctx):
@@ -182,7 +199,7 @@ def check_fields(case, ctx):
     coord = SkyCoord(ra=(case["ra_s"] / 3600.0) * u.hourangle, dec=(case["dec_as"] / 3600.0) * u.deg)
     hdr = Header(filename=p, data_type="filterbank", nchans=case["nchans"], foff=case["foff"], fch1=case["fch1"],
                  nbits=case["nbits"], tsamp=case["tsamp"], tstart=case["tstart"], nsamples=0, nifs=case["nifs"],
-                 coord=coord, azimuth=Angle(case["az"] * u.deg), zenith=Angle(case["za"] * u.deg),
+                 coord=coord, azimuth=_angle(case["az"], case.get("angle_unit", "deg")), zenith=_angle(case["za"], case.get("angle_unit", "deg")),
                  telescope=case["telescope"], backend=case["backend"], source=case["source"], frame=case["frame"],
                  ibeam=case["ibeam"], nbeams=case["nbeams"], dm=case["dm"], rawdatafile=case["rawdatafile"],
                  signed=case["signed"])
@@ -202,8 +219,10 @@ def check_fields(case, ctx):
     if not (sep <= 0.01):
         raise Violation("fields:coord", f"ra_s={case['ra_s']!r} dec_as={case['dec_as']!r}: wrote {hdr.ra} {hdr.dec}, "
                         f"read {back.ra} {back.dec}, separation {sep} arcsec")
-    require(abs(back.azimuth.deg - case["az"]) <= 1e-9, "fields:azimuth", f"{back.azimuth.deg} vs {case['az']}")
-    require(abs(back.zenith.deg - case["za"]) <= 1e-9, "fields:zenith", f"{back.zenith.deg} vs {case['za']}")
+    unit = case.get("angle_unit", "deg")
+    tol = 1e-9 if unit == "deg" else 1e-9 + 4e-13 * 360  # unit conversion and back costs a few ulp of the angle
+    require(abs(back.azimuth.deg - case["az"]) <= tol, "fields:azimuth", f"{back.azimuth.deg} vs {case['az']} (given in {unit})")
+    require(abs(back.zenith.deg - case["za"]) <= tol, "fields:zenith", f"{back.zenith.deg} vs {case['za']} (given in {unit})")
     require(back.telescope_id == hdr.telescope_id and back.machine_id == hdr.machine_id, "fields:ids")
     labels = [case["frame"]]
     if -3600 < case["dec_as"] < 0:
